@@ -265,6 +265,49 @@ theorem pok_identOrEmpty {sc : Scope} (h : ScopeOk sc) (k : Bytes) : POk (identO
   | none => trivial
   | some g => exact lookup_ok h hl
 
+theorem loopFrame_mem : ∀ (st : List Frame) (v : Bytes) (f : Frame), Scope.loopFrame st v = some f → f ∈ st
+  | [], _, _, h => by simp [Scope.loopFrame] at h
+  | g :: r, v, f, h => by
+    unfold Scope.loopFrame at h
+    split at h
+    · simp only [Option.some.injEq] at h; subst h; simp
+    · exact List.mem_cons_of_mem _ (loopFrame_mem r v f h)
+
+theorem pok_frameGet {f : Frame} (hf : FrameOk f) (k : Bytes) : POk (identOrEmpty (frameGet? f k)) := by
+  cases hl : frameGet? f k with
+  | none => trivial
+  | some g => exact (frameGet_ok f k g hf hl).1
+
+/-- the last-iteration test is generator text around identifiers of the scope -/
+theorem pok_looplast {sc : Scope} (h : ScopeOk sc) (v : Bytes) : AllP POk (looplast sc v) := by
+  unfold looplast
+  cases hf : Scope.loopFrame sc.stack v with
+  | none => intro p hp; cases hp
+  | some f =>
+    have hfo : FrameOk f := h f (loopFrame_mem sc.stack v f hf)
+    simp only
+    cases hs : frameGet? f (Scope.kStep ++ v) with
+    | some step =>
+      intro p hp
+      simp only [List.mem_cons, List.mem_nil_iff, or_false] at hp
+      rcases hp with rfl | rfl | rfl | rfl | rfl | rfl | rfl
+      · trivial
+      · exact pok_frameGet hfo _
+      · trivial
+      · exact (frameGet_ok f _ step hfo hs).1
+      · trivial
+      · exact pok_frameGet hfo _
+      · trivial
+    | none =>
+      intro p hp
+      simp only [List.mem_cons, List.mem_nil_iff, or_false] at hp
+      rcases hp with rfl | rfl | rfl | rfl | rfl
+      · trivial
+      · exact pok_frameGet hfo _
+      · trivial
+      · exact pok_frameGet hfo _
+      · trivial
+
 theorem s_applyParts {b : Bytes} {ws : List (M Unit)} (hw : ∀ w ∈ ws, SU b w) :
     ∀ parts : List Gen.JsFnPart, SU b (applyParts ws parts)
   | [] => by unfold applyParts; exact s_pure
@@ -330,9 +373,7 @@ mutual
         · split
           · refine Spec.bind s_getScope ?_
             intro sc hsc
-            have h1 := s_emit (b := b) (pok_identOrEmpty hsc (Scope.kIndex ++ loopVarOf args))
-            have h2 := s_emit (b := b) (pok_identOrEmpty hsc (Scope.kLimit ++ loopVarOf args))
-            msteps
+            exact s_emits (pok_looplast hsc (loopVarOf args))
           · split
             · refine Spec.bind s_getScope ?_
               intro sc hsc
@@ -835,10 +876,12 @@ macro "forc_common" : tactic => `(tactic| (
     intro incrJs hincr
     refine Spec.bind s_getScope ?_
     intro sc hsc
-    have ⟨i1, i2, i3⟩ := pushForRange_ok hsc hv
-    have := s_setScope (b := b) i3
+    have ⟨i1, i2, i3, i4, i5⟩ := pushForRange_ok hsc hv
+    have := s_setScope (b := b) i5
     have e1 := s_emit (b := b) (p := .ident (sc.pushForRange v).1.1) i1
-    have e2 := s_emit (b := b) (p := .ident (sc.pushForRange v).1.2) i2
+    have e2 := s_emit (b := b) (p := .ident (sc.pushForRange v).1.2.1) i2
+    have e3 := s_emit (b := b) (p := .ident (sc.pushForRange v).1.2.2.1) i3
+    have e4 := s_emit (b := b) (p := .ident (sc.pushForRange v).1.2.2.2) i4
     have := s_emits (b := b) hlimit
     have := s_emits (b := b) hinit
     have := s_emits (b := b) hincr
